@@ -18,6 +18,23 @@ TEXT = {
   "note": "Trusted: Coq kernel, extraction, driver, harness. The Go runtime, net and the ipv4/ipv6 control message code are not modelled.",
   "technique": "Coq proof (invariants of the parser state machine, fuel sufficiency, structural recursion) + differential correspondence check with spin/crash watchdog",
  },
+ "C08": {
+  "text": "Proved in Coq (Properties/C08.v) on an LTS model of endpoint.Manager: an election elects the first endpoint in provider-then-endpoint order "
+          "whose probe succeeds, else the first listed one, probing strictly in that order and stopping at the first success; OnChange fires exactly when "
+          "the elected endpoint differs from the active one; each started query is executed exactly once on the endpoint active at its start; in every "
+          "reachable state the active endpoint is the init endpoint or one offered in the latest successful election. Tie: the real Manager driven by "
+          "scripts with full schedule control (gated elections, blocking actions, virtual clock), state and ordered callback log compared after every op.",
+  "note": "Trusted: Coq kernel, extraction, driver, harness, add-only overlay (testNow setter, state reader). Elections are atomic in the model (they hold Manager.mu). Defects F2 (lock leak) and F16 (nil endpoint) fixed in /repo.",
+  "technique": "Coq proof (invariant by induction over all label sequences) + schedule-controlled differential correspondence check",
+ },
+ "C09": {
+  "text": "Proved in Coq (Properties/C09.v): reaching the error threshold / exceeding the test interval starts exactly one background election for "
+          "that endpoint object (testing latch: at most one pending per object in every reachable state, NoDup); the election moves to the first healthy "
+          "candidate; the step function is total and, at lock level, the repaired bootstrap path never leaves Manager.mu held (the pre-repair path is "
+          "kept as a mutant with a proof that it wedges every later query). Tie: as C08 plus deadlock watchdog and crash detection per script.",
+  "note": "Trusted: as C08. Progress assumes fair Go scheduling. The lock-level statement uses a small separate lock model (Mutants/ManagerLock.v).",
+  "technique": "Coq proof (latch invariant over reachable states, lock model with refuted mutant) + schedule-controlled correspondence check with watchdog",
+ },
  "C10": {
   "text": "Proved in Coq (Properties/C10.v) for all forwarder lists and names: exactly one upstream receives each query; it is the first entry in "
           "order whose domain is empty or equals the name or is followed by it after a '.' (case-insensitively), else the appended default; letter "
